@@ -190,6 +190,20 @@ func (ea *effAnalysis) roots(v ssa.Value, fn *ssa.Function, depth int) []root {
 	case *ssa.Lookup:
 		return ea.roots(x.X, fn, depth+1)
 	case *ssa.BinOp:
+		// pointer arithmetic on uintptr (e.g. the `uintptr(unsafe.Pointer(p)) ^ 0` idiom that hides a pointer from escape
+		// analysis): still the object the operands point to
+		if b, ok := x.Type().Underlying().(*types.Basic); ok && b.Kind() == types.Uintptr {
+			var out []root
+			for _, op := range []ssa.Value{x.X, x.Y} {
+				if _, isC := op.(*ssa.Const); isC {
+					continue
+				}
+				out = append(out, ea.roots(op, fn, depth+1)...)
+			}
+			if len(out) > 0 {
+				return out
+			}
+		}
 		return []root{{kind: rkFresh}}
 	}
 	return []root{{kind: rkShared, name: fmt.Sprintf("%T", v)}}
